@@ -127,7 +127,7 @@ func (p Precompile) UpdateAVS(
 
 func (p Precompile) BindOperatorToAVS(
 	ctx sdk.Context,
-	_ common.Address,
+	origin common.Address,
 	contract *vm.Contract,
 	_ vm.StateDB,
 	method *abi.Method,
@@ -139,6 +139,12 @@ func (p Precompile) BindOperatorToAVS(
 	callerAddress, ok := args[0].(common.Address)
 	if !ok || (callerAddress == common.Address{}) {
 		return nil, fmt.Errorf(exocmn.ErrContractInputParaOrType, 0, "common.Address", callerAddress)
+	}
+
+	// the operator is named by the calling AVS contract: it must be the signer of the transaction,
+	// otherwise anybody could opt any operator in through a contract (or account) of their own
+	if callerAddress != origin {
+		return nil, fmt.Errorf(exocmn.ErrContractCaller, "the operator is not the signer of the transaction")
 	}
 
 	operatorParams := &avskeeper.OperatorOptParams{}
@@ -154,7 +160,7 @@ func (p Precompile) BindOperatorToAVS(
 
 func (p Precompile) UnbindOperatorToAVS(
 	ctx sdk.Context,
-	_ common.Address,
+	origin common.Address,
 	contract *vm.Contract,
 	_ vm.StateDB,
 	method *abi.Method,
@@ -166,6 +172,9 @@ func (p Precompile) UnbindOperatorToAVS(
 	callerAddress, ok := args[0].(common.Address)
 	if !ok || (callerAddress == common.Address{}) {
 		return nil, fmt.Errorf(exocmn.ErrContractInputParaOrType, 0, "common.Address", callerAddress)
+	}
+	if callerAddress != origin {
+		return nil, fmt.Errorf(exocmn.ErrContractCaller, "the operator is not the signer of the transaction")
 	}
 	operatorParams := &avskeeper.OperatorOptParams{}
 	operatorParams.OperatorAddress = sdk.AccAddress(callerAddress[:]).String()
@@ -261,7 +270,7 @@ func (p Precompile) Challenge(
 // RegisterBLSPublicKey
 func (p Precompile) RegisterBLSPublicKey(
 	ctx sdk.Context,
-	_ common.Address,
+	origin common.Address,
 	_ *vm.Contract,
 	_ vm.StateDB,
 	method *abi.Method,
@@ -274,6 +283,10 @@ func (p Precompile) RegisterBLSPublicKey(
 	callerAddress, ok := args[0].(common.Address)
 	if !ok || (callerAddress == common.Address{}) {
 		return nil, fmt.Errorf(exocmn.ErrContractInputParaOrType, 0, "common.Address", callerAddress)
+	}
+	// a key is registered once and for good: only the operator itself may do it
+	if callerAddress != origin {
+		return nil, fmt.Errorf(exocmn.ErrContractCaller, "the operator is not the signer of the transaction")
 	}
 	blsParams.Operator = sdk.AccAddress(callerAddress[:]).String()
 	name, ok := args[1].(string)
